@@ -11,9 +11,12 @@ Result lines (the model renders the same text):
 followed, after " || ", by the write-read-write observation used by the
 property oracle: format_datetime(parse_into_datetime(<text>, p, c)) or EXC.
 """
+import copy
 import datetime as dt
 import json
+import pickle
 import sys
+import zoneinfo
 
 import pytz
 
@@ -27,7 +30,21 @@ EPOCH = dt.datetime(1, 1, 1)
 US = dt.timedelta(microseconds=1)
 
 
-def tzinfo_of(off, kind):
+def via(x, how):
+    """The value / object after a copy, a deep copy or a pickle round trip (None: as it is)."""
+    if how == "deepcopy":
+        return copy.deepcopy(x)
+    if how == "copy":
+        return copy.copy(x)
+    if how == "pickle":
+        return pickle.loads(pickle.dumps(x))
+    return x
+
+
+def tzinfo_of(off, kind, zone=None):
+    if kind == "zone":
+        # one tzinfo object per zone and process (ZoneInfo caches by key): its offset varies with the datetime
+        return zoneinfo.ZoneInfo(zone)
     if off is None:
         return None
     if kind == "pytz" and off % 60000000 == 0:
@@ -43,14 +60,15 @@ def build_input(spec, p, c):
     if "date" in spec:
         return dt.date(*spec["date"])
     y, m, d, hh, mm, ss, us = spec["dt"]
-    tz = tzinfo_of(spec.get("off"), spec.get("tz", "std"))
+    tz = tzinfo_of(spec.get("off"), spec.get("tz", "std"), spec.get("zone"))
+    fold = spec.get("fold", 0)
     if spec.get("cls") == "stix":
-        return STIXdatetime(y, m, d, hh, mm, ss, us, tz, precision=p, precision_constraint=c)
+        return STIXdatetime(y, m, d, hh, mm, ss, us, tz, precision=p, precision_constraint=c, fold=fold)
     if "src" in spec:
         # a STIXdatetime produced by an earlier parse_into_datetime at another precision/constraint
         # (e.g. a timestamp taken from one object and given to a property of another)
-        return parse_into_datetime(dt.datetime(y, m, d, hh, mm, ss, us, tz), spec["src"][0], spec["src"][1])
-    return dt.datetime(y, m, d, hh, mm, ss, us, tz)
+        return parse_into_datetime(dt.datetime(y, m, d, hh, mm, ss, us, tz, fold=fold), spec["src"][0], spec["src"][1])
+    return dt.datetime(y, m, d, hh, mm, ss, us, tz, fold=fold)
 
 
 def local_us(x):
@@ -89,9 +107,10 @@ def run(case):
     except Exception as e:  # noqa: BLE001
         return "BADCASE " + type(e).__name__
     text = None
+    how = case.get("via")
     if k == "fmt":
         try:
-            text = format_datetime(value)
+            text = format_datetime(via(value, how))
             out = "OK " + text
         except Exception as e:  # noqa: BLE001
             out = exc(e)
@@ -110,7 +129,7 @@ def run(case):
     elif k == "prop":
         try:
             prop = stix2.properties.TimestampProperty(precision=p, precision_constraint=c)
-            cleaned = prop.clean(value, False)[0]
+            cleaned = via(prop.clean(value, False)[0], how)
             text = json.loads(json.dumps({"x": cleaned}, cls=STIXJSONEncoder))["x"]
             out = "OK " + text
         except Exception as e:  # noqa: BLE001
@@ -118,7 +137,7 @@ def run(case):
     elif k == "obj":
         route = case["route"]
         try:
-            o = OBJ_ROUTES[route](value)
+            o = via(OBJ_ROUTES[route](value), how)
             text = json.loads(o.serialize())[route.split(".")[-1]]
             out = "OK " + text
         except stix2.exceptions.InvalidValueError:
